@@ -131,10 +131,13 @@ def it_multisel(c):
     s = I(sw, 's')
     d0, d1 = pyrtl.WireVector(w, 'd0'), pyrtl.WireVector(w + 1, 'd1')
     opts = c['opts']
+    dpos = c.get('dpos', len(opts)) if c.get('default') else None    # where default() is declared among the options
     with muxes.MultiSelector(s, d0, d1) as ms:
-        for k in opts:
+        for n_, k in enumerate(opts):
+            if dpos == n_:
+                ms.default(I(w, 'xd'), I(w + 1, 'yd'))
             ms.option(k, I(w, 'x%d' % k), I(w + 1, 'y%d' % k))
-        if c.get('default'):
+        if dpos is not None and dpos >= len(opts):
             ms.default(I(w, 'xd'), I(w + 1, 'yd'))
 
     def orc(ins):
@@ -214,6 +217,30 @@ def it_bitfield_trunc(c):
         bits = [(ins['a'] >> i) & 1 for i in range(w)]
         for j, i in enumerate(idx):
             bits[i] = (ins['n'] >> j) & 1
+        return {'r': from_bits(bits)}
+    return {'outs': {'r': r}, 'widths': {'r': w}, 'oracle': orc}
+
+
+def it_bitfield_int(c):
+    """new value given as a Python int / bool / Verilog-style string; truncating=True clips a value that is too large"""
+    w, st, en, val, trunc = c['w'], c['st'], c['en'], c['val'], c['trunc']
+    a = I(w, 'a')
+    idx = list(range(w))[st:en]
+    ival = int(val.split("'d")[1]) if isinstance(val, str) else int(val)
+    if not idx or (ival >= (1 << len(idx)) and not trunc):
+        c['expect_error'] = True
+    elif ival >= (1 << len(idx)):
+        # truncating=True with an int that does not fit: the docstring says "silently clip", the implementation rejects the
+        # constant with PyrtlError; the property only speaks of which bits are replaced, so both a clean rejection and the
+        # clipped value are accepted (anything else is a violation)
+        c['may_error'] = True
+    r = pyrtl.bitfield_update(a, st, en, val, truncating=trunc) if c.get('form') != 'set' else \
+        pyrtl.bitfield_update_set(a, {(st, en): val}, truncating=trunc)
+
+    def orc(ins):
+        bits = [(ins['a'] >> i) & 1 for i in range(w)]
+        for j, i in enumerate(idx):
+            bits[i] = (ival >> j) & 1
         return {'r': from_bits(bits)}
     return {'outs': {'r': r}, 'widths': {'r': w}, 'oracle': orc}
 
@@ -418,7 +445,7 @@ def it_struct(c):
 from .c06 import it_barrel  # noqa: E402  (barrel_shifter is named by both properties)
 
 ITEMS = {'barrel': it_barrel, 'mux': it_mux, 'enum_mux': it_enum_mux, 'sparse': it_sparse, 'prio': it_prio, 'multisel': it_multisel,
-         'demux': it_demux, 'bitfield': it_bitfield, 'bitfield_set': it_bitfield_set, 'bitfield_trunc': it_bitfield_trunc,
+         'demux': it_demux, 'bitfield': it_bitfield, 'bitfield_set': it_bitfield_set, 'bitfield_trunc': it_bitfield_trunc, 'bitfield_int': it_bitfield_int,
          'pattern': it_pattern, 'chop': it_chop, 'partition': it_partition, 'struct': it_struct}
 
 
@@ -450,8 +477,9 @@ def cases(tier, seed):
     for n in range(1, 7 if tier == 'quick' else 10):
         out.append({'item': 'prio', 'n': n, 'w': 2})
     for opts in ([0], [1, 2], [0, 3], [0, 1, 2, 3], [5], [1, 6, 7]):
-        for d in (False, True):
-            out.append({'item': 'multisel', 'sw': 3 if max(opts) > 3 else 2, 'w': 2, 'opts': opts, 'default': d})
+        out.append({'item': 'multisel', 'sw': 3 if max(opts) > 3 else 2, 'w': 2, 'opts': opts, 'default': False})
+        for dpos in range(len(opts) + 1):
+            out.append({'item': 'multisel', 'sw': 3 if max(opts) > 3 else 2, 'w': 2, 'opts': opts, 'default': True, 'dpos': dpos})
     for sw in (1, 2, 3, 4):
         out.append({'item': 'demux', 'sw': sw})
     for w in ((3, 4, 5) if tier == 'quick' else (1, 2, 3, 4, 5, 6)):
@@ -459,6 +487,16 @@ def cases(tier, seed):
         for st, en in itertools.product(rng, rng):
             out.append({'item': 'bitfield', 'w': w, 'st': st, 'en': en})
         out.append({'item': 'bitfield_trunc', 'w': w, 'st': 1 if w > 1 else 0, 'en': None})
+        for st, en in ((0, None), (1, None), (None, -1), (1, 3), (-2, None), (0, 1)):
+            flen = len(list(range(w))[st:en])
+            if flen == 0:
+                continue
+            for val in sorted({0, 1, (1 << flen) - 1, (1 << flen) >> 1, ((1 << flen) - 1) ^ 1, (1 << flen), (1 << flen) + 2, 5}):
+                for trunc in (False, True):
+                    out.append({'item': 'bitfield_int', 'w': w, 'st': st, 'en': en, 'val': val, 'trunc': trunc,
+                                'form': 'set' if (val + w) % 3 == 0 else 'plain'})
+        out.append({'item': 'bitfield_int', 'w': w, 'st': 0, 'en': 1, 'val': True, 'trunc': True})
+        out.append({'item': 'bitfield_int', 'w': w, 'st': 0, 'en': None, 'val': "%d'd1" % w, 'trunc': False})
     for ranges in ([(0, 1), (2, None)], [(None, 2), (2, 4)], [(1, 3), (2, 4)], [(-1, None), (None, 1), (1, 3)], [(0, 5)],
                    [(3, 3), (0, 1)], [(None, -1), (-1, None)]):
         out.append({'item': 'bitfield_set', 'w': 5, 'ranges': [list(r) for r in ranges]})
